@@ -19,6 +19,7 @@ fn p2_scenarios(thorough: bool) -> Vec<p2::Scenario> {
         pre,
         settles,
         shells,
+        hosted: name.starts_with("hosted_"),
     };
     let mut v = vec![
         sc("many1_pre_resolve", vec![Many], vec![(0, 1)], 1, vec![vec![(0, Resolve(2))]]),
@@ -28,6 +29,9 @@ fn p2_scenarios(thorough: bool) -> Vec<p2::Scenario> {
         sc("many_once_pre_resolve_once", vec![Many, Once], vec![(0, 1)], 1, vec![vec![(1, Resolve(7))]]),
         sc("once_drop", vec![Once], vec![], 1, vec![vec![(0, Drop)]]),
         sc("many_once_drop_once", vec![Many, Once], vec![(0, 1)], 1, vec![vec![(1, Drop)]]),
+        sc("hosted_many1_resolve", vec![Many], vec![], 2, vec![vec![(0, Resolve(2))]]),
+        sc("hosted_many1_pre_resolve_resolve", vec![Many], vec![(0, 1)], 2, vec![vec![(0, Resolve(2)), (0, Resolve(3))]]),
+        sc("hosted_many2_resolve_other", vec![Many, Many], vec![(0, 1)], 2, vec![vec![(1, Resolve(5))]]),
         sc("many1_nopre_resolve", vec![Many], vec![], 1, vec![vec![(0, Resolve(2))]]),
         sc("many1_pre_resolve_drop", vec![Many], vec![(0, 1)], 1, vec![vec![(0, Resolve(2)), (0, Drop)]]),
     ];
@@ -54,7 +58,7 @@ fn run_p2(thorough: bool, seed: u64, corpus: &[String], only: Option<&str>) {
         let Some(sc) = scs.iter().find(|s| s.name == parts[1]) else { continue };
         let dirs = parse_dirs(parts[2]);
         let (inst, threads) = p2::make(sc);
-        let out = ctl::run_schedule(threads, p2::PARK, &[], ctl::Policy::Directed(&dirs), 400);
+        let out = ctl::run_schedule(threads, if sc.hosted { p2::PARK_HOSTED } else { p2::PARK }, &[], ctl::Policy::Directed(&dirs), 400);
         let obs = p2::finish(inst);
         println!("{}", p2::case_json(sc, &out, &obs, "corpus"));
     }
@@ -70,10 +74,11 @@ fn run_p2(thorough: bool, seed: u64, corpus: &[String], only: Option<&str>) {
         let mut infeasible = 0usize;
         let (runs, exhausted) = ctl::explore_all(
             || p2::make(&sc),
-            p2::PARK,
+            if sc.hosted { p2::PARK_HOSTED } else { p2::PARK },
             max_runs,
             400,
             if thorough { 5 } else { 3 },
+            |_| {},
             |inst, out| {
                 let obs = p2::finish(inst);
                 if !out.feasible {
@@ -91,7 +96,7 @@ fn run_p2(thorough: bool, seed: u64, corpus: &[String], only: Option<&str>) {
         for k in 0..(400 * scs.len()) {
             let sc = &scs[k % scs.len()];
             let (inst, threads) = p2::make(sc);
-            let out = ctl::run_schedule(threads, p2::PARK, &[], ctl::Policy::Random(&mut rng), 400);
+            let out = ctl::run_schedule(threads, if sc.hosted { p2::PARK_HOSTED } else { p2::PARK }, &[], ctl::Policy::Random(&mut rng), 400);
             let obs = p2::finish(inst);
             println!("{}", p2::case_json(sc, &out, &obs, "random"));
         }
@@ -100,10 +105,10 @@ fn run_p2(thorough: bool, seed: u64, corpus: &[String], only: Option<&str>) {
 
 fn core_scenarios(thorough: bool) -> Vec<coreapp::Scenario> {
     use coreapp::{Call::*, Ev, Scenario, TaskSpec};
-    let go = |d: u64, tasks: Vec<TaskSpec>| Event(Ev::Go { d, tasks });
-    let emit = |task: u64, n: u64| TaskSpec { task, n, req: false, many: false };
-    let once = |task: u64, n: u64| TaskSpec { task, n, req: true, many: false };
-    let many = |task: u64| TaskSpec { task, n: 0, req: true, many: true };
+    let go = |d: u64, tasks: Vec<TaskSpec>| Event(Ev::Go { d, tasks, gate: false });
+    let emit = |task: u64, n: u64| TaskSpec { task, n, req: false, many: false, gate: false };
+    let once = |task: u64, n: u64| TaskSpec { task, n, req: true, many: false, gate: false };
+    let many = |task: u64| TaskSpec { task, n: 0, req: true, many: true, gate: false };
     let sc = |name: &str, setup: Vec<coreapp::Call>, threads: Vec<Vec<coreapp::Call>>| Scenario { name: name.to_string(), setup, threads };
     let mut v = vec![
         sc("start_vs_noop", vec![], vec![vec![go(1, vec![emit(1, 2)])], vec![go(2, vec![])]]),
@@ -123,11 +128,92 @@ fn core_scenarios(thorough: bool) -> Vec<coreapp::Scenario> {
     v
 }
 
+/// Scenarios whose schedule is forced from the harness side only: the app's update / view and the
+/// task futures park at app-level gates (no hook of the crux source is a parking point).
+fn gate_scenarios(thorough: bool) -> Vec<coreapp::Scenario> {
+    use coreapp::{Call::*, Ev, Scenario, TaskSpec};
+    let go = |d: u64, tasks: Vec<TaskSpec>| Event(Ev::Go { d, tasks, gate: false });
+    let gated = |d: u64| Event(Ev::Go { d, tasks: vec![], gate: true });
+    let emit = |task: u64, n: u64| TaskSpec { task, n, req: false, many: false, gate: false };
+    let once = |task: u64, n: u64| TaskSpec { task, n, req: true, many: false, gate: false };
+    let once_gated = |task: u64, n: u64| TaskSpec { task, n, req: true, many: false, gate: true };
+    let many = |task: u64| TaskSpec { task, n: 0, req: true, many: true, gate: false };
+    let sc = |name: &str, setup: Vec<coreapp::Call>, threads: Vec<Vec<coreapp::Call>>| Scenario { name: name.to_string(), setup, threads };
+    let mut v = vec![
+        // A sits inside update (holding the model) while B resolves a request whose task sends two events
+        sc("gate_update_vs_resolve", vec![go(1, vec![once(1, 2)])], vec![vec![gated(2)], vec![Resolve { task: 1, v: 5 }]]),
+        // a reader sits inside view (holding the model for reading) while B resolves
+        sc("gate_view_vs_resolve", vec![go(1, vec![once(1, 2)])], vec![vec![View], vec![Resolve { task: 1, v: 5 }]]),
+        // A sits inside a task poll between two send_events while B sends an event and reads the view
+        sc("gate_task_vs_event_view", vec![go(1, vec![once_gated(1, 2)])], vec![vec![Resolve { task: 1, v: 5 }], vec![go(2, vec![]), View]]),
+        sc("gate_update_vs_start", vec![], vec![vec![gated(2)], vec![go(3, vec![emit(2, 2)])]]),
+        sc("gate_view_vs_start", vec![], vec![vec![View], vec![go(3, vec![emit(2, 3)])]]),
+        sc("gate_update_vs_stream", vec![go(1, vec![many(1)])], vec![vec![gated(2)], vec![Resolve { task: 1, v: 5 }, Resolve { task: 1, v: 6 }]]),
+    ];
+    if thorough {
+        v.push(sc("gate_update_view_resolve", vec![go(1, vec![once(1, 2)])], vec![vec![gated(2)], vec![View], vec![Resolve { task: 1, v: 5 }]]));
+        v.push(sc("gate_update_vs_two_resolvers", vec![go(1, vec![once(1, 2), once(2, 2)])], vec![vec![gated(2)], vec![Resolve { task: 1, v: 5 }], vec![Resolve { task: 2, v: 6 }]]));
+        v.push(sc("gate_view_vs_two_resolvers", vec![go(1, vec![once(1, 2), once(2, 2)])], vec![vec![View], vec![Resolve { task: 1, v: 5 }], vec![Resolve { task: 2, v: 6 }]]));
+    }
+    v
+}
+
 fn park_of(proto: &str) -> &'static [&'static str] {
     match proto {
         "P1" => coreapp::PARK_P1,
         "P1F" => coreapp::PARK_P1_FULL,
+        "PG" => coreapp::PARK_G,
+        "PW" => coreapp::PARK_W,
+        "PF" => &[],
         _ => coreapp::PARK_P3,
+    }
+}
+
+/// PG: gated scenarios, the whole enumeration repeated (lock races are not controlled);
+/// PF: every Core-level and gated scenario with no control at all (stress)
+fn run_gated(proto: &str, thorough: bool, only: Option<&str>) {
+    if only == Some("corpus") {
+        return;
+    }
+    let scs: Vec<coreapp::Scenario> = if proto == "PG" { gate_scenarios(thorough) } else { core_scenarios(thorough).into_iter().chain(gate_scenarios(thorough)).collect() };
+    for sc in scs {
+        if only.is_some() && only != Some(sc.name.as_str()) {
+            continue;
+        }
+        let mut total = 0usize;
+        let mut infeasible = 0usize;
+        if proto == "PG" {
+            for _rep in 0..(if thorough { 12 } else { 4 }) {
+                let (runs, _) = ctl::explore_all(
+                    || coreapp::make(&sc),
+                    park_of(proto),
+                    200,
+                    200,
+                    usize::MAX,
+                    coreapp::observe,
+                    |inst, out| {
+                        let obs = coreapp::finish(&inst);
+                        if !out.feasible {
+                            infeasible += 1;
+                        }
+                        println!("{}", coreapp::case_json(proto, &sc, &inst.setup_trace, &out, &obs, "gated"));
+                    },
+                );
+                total += runs;
+            }
+        } else {
+            for _ in 0..(if thorough { 150 } else { 15 }) {
+                let (inst, threads) = coreapp::make(&sc);
+                let out = ctl::run_schedule(threads, park_of(proto), &[], ctl::Policy::Free, 10);
+                let obs = coreapp::finish(&inst);
+                if !out.feasible {
+                    infeasible += 1;
+                }
+                println!("{}", coreapp::case_json(proto, &sc, &inst.setup_trace, &out, &obs, "free"));
+                total += 1;
+            }
+        }
+        println!("# {} scenario={} runs={} exhaustive={} infeasible={}", proto.to_lowercase(), sc.name, total, proto == "PG", infeasible);
     }
 }
 
@@ -164,6 +250,7 @@ fn run_core(proto: &str, thorough: bool, seed: u64, corpus: &[String], only: Opt
             max_runs,
             600,
             if proto == "P1F" { 2 } else if thorough { 3 } else { 2 },
+            |_| {},
             |inst, out| {
                 let obs = coreapp::finish(&inst);
                 if !out.feasible {
@@ -202,14 +289,25 @@ fn run_replay(path: &str) {
         let proto = v["proto"].as_str().unwrap_or("");
         let scen = v["scen"].as_str().unwrap_or("");
         let sched: Vec<usize> = v["sched"].as_array().map(|a| a.iter().filter_map(|x| x.as_u64().map(|y| y as usize)).collect()).unwrap_or_default();
-        if proto == "P2" {
+        if proto == "P2" || proto == "P2H" {
             if let Some(sc) = p2_scenarios(true).iter().find(|s| s.name == scen) {
                 let (inst, threads) = p2::make(sc);
-                let out = ctl::run_schedule(threads, p2::PARK, &sched, ctl::Policy::First, 400);
+                let out = ctl::run_schedule(threads, if sc.hosted { p2::PARK_HOSTED } else { p2::PARK }, &sched, ctl::Policy::First, 400);
                 let obs = p2::finish(inst);
                 println!("{}", p2::case_json(sc, &out, &obs, "replay"));
             }
-        } else if proto == "P1" || proto == "P3" || proto == "P1F" {
+        } else if proto == "PG" || proto == "PF" {
+            // lock races and free runs are not controlled: a replay repeats the schedule
+            if let Some(sc) = gate_scenarios(true).iter().chain(core_scenarios(true).iter()).find(|s| s.name == scen) {
+                for _ in 0..12 {
+                    let (inst, threads) = coreapp::make(sc);
+                    let pol = if proto == "PF" { ctl::Policy::Free } else { ctl::Policy::First };
+                    let out = ctl::run_schedule_obs(threads, park_of(proto), &sched, pol, 200, &mut || coreapp::observe(&inst));
+                    let obs = coreapp::finish(&inst);
+                    println!("{}", coreapp::case_json(proto, sc, &inst.setup_trace, &out, &obs, "replay"));
+                }
+            }
+        } else if proto == "P1" || proto == "P3" || proto == "P1F" || proto == "PW" {
             if let Some(sc) = core_scenarios(true).iter().find(|s| s.name == scen) {
                 let (inst, threads) = coreapp::make(sc);
                 let out = ctl::run_schedule(threads, park_of(proto), &sched, ctl::Policy::First, 600);
@@ -247,6 +345,12 @@ fn main() {
             if thorough {
                 println!("p1f {}", s.name);
             }
+            println!("pw {}", s.name);
+            println!("pf {}", s.name);
+        }
+        for s in gate_scenarios(thorough) {
+            println!("pg {}", s.name);
+            println!("pf {}", s.name);
         }
         return;
     }
@@ -261,5 +365,14 @@ fn main() {
     }
     if proto == "p1f" || (proto == "all" && thorough) {
         run_core("P1F", thorough, seed, &corpus, only);
+    }
+    if proto == "pw" || proto == "all" {
+        run_core("PW", thorough, seed, &corpus, only);
+    }
+    if proto == "pg" || proto == "all" {
+        run_gated("PG", thorough, only);
+    }
+    if proto == "pf" || proto == "all" {
+        run_gated("PF", thorough, only);
     }
 }
